@@ -22,20 +22,22 @@ open OasisProofs.C15 (deposit_succeeds withdraw_succeeds deposit_moves Sorted)
 /-! ### Side conditions -/
 
 /-- What the environment guarantees besides the ledger invariant:
-* commission rates are at most 100% (`CommissionSchedule` validation; `MinCommissionRate ≤
+* every commission schedule is valid — all its rate steps at most 100% — which the genesis check
+  establishes and every accepted `AmendCommissionSchedule` preserves (`C05Commission.genesis_valid`,
+  `amend_valid`; see `applyOp_sane`: no longer an assumption about transactions); `MinCommissionRate ≤
   CommissionRateDenominator` by `ConsensusParameters.SanityCheck`);
 * the entities of validators / signers are real accounts: in range and not reserved addresses
   (`NewAddress(entityID)` of a registered entity; reserved public keys are blacklisted);
 * queued debonding delegations do not mention reserved addresses (`reclaimEscrow` refuses them). -/
 structure Sane (l : Ledger) : Prop where
-  rates : ∀ i r, (l.acct i).commission = some r → r ≤ commissionRateDenominator
+  rates : ∀ i, C05Commission.Valid l.params.rules (l.acct i).schedule
   minRate : l.params.minCommissionRate ≤ commissionRateDenominator
   entities : ∀ a, (a ∈ l.params.pkOrder ∨ a ∈ l.params.validators) → a < l.n ∧ l.isReserved a = false
   debRefs : ∀ x ∈ l.deb, l.isReserved x.delegator = false ∧ l.isReserved x.escrow = false
 
 /-- `l'` keeps parameters, range and commission rates of `l`, and queues no new debonding entry. -/
 def Frame (l l' : Ledger) : Prop :=
-  l'.params = l.params ∧ l'.n = l.n ∧ (∀ i, (l'.acct i).commission = (l.acct i).commission) ∧
+  l'.params = l.params ∧ l'.n = l.n ∧ (∀ i, (l'.acct i).schedule = (l.acct i).schedule) ∧
   (∀ x ∈ l'.deb, x ∈ l.deb)
 
 theorem Frame.refl (l : Ledger) : Frame l l := ⟨rfl, rfl, fun _ => rfl, fun _ h => h⟩
@@ -49,7 +51,7 @@ theorem isReserved_params {l l' : Ledger} (h : l'.params = l.params) (a : Nat) :
 theorem Frame.sane {l l' : Ledger} (hs : Sane l) (h : Frame l l') : Sane l' := by
   obtain ⟨hp, hn, hc, hd⟩ := h
   refine ⟨?_, by rw [hp]; exact hs.minRate, ?_, ?_⟩
-  · intro i r hr; rw [hc i] at hr; exact hs.rates i r hr
+  · intro i; rw [hc i, hp]; exact hs.rates i
   · intro a ha; rw [hp] at ha; rw [hn, isReserved_params hp]; exact hs.entities a ha
   · intro x hx; rw [isReserved_params hp, isReserved_params hp]; exact hs.debRefs x (hd x hx)
 
@@ -66,7 +68,14 @@ macro "frame_sane" h:ident : tactic => `(tactic|
     | (cases $h:ident; done)
     | (split at $h:ident))))
 
-theorem rewardAccount_frame (l l' : Ledger) (a q : Nat) (hok : rewardAccount l a q = .ok l') : Frame l l' := by
+/-- The rate commission is computed with is at most 100 % in a sane ledger, at every epoch. -/
+theorem rateOf_le (l : Ledger) (hs : Sane l) (a ep : Nat) : l.rateOf a ep ≤ commissionRateDenominator := by
+  unfold Ledger.rateOf
+  cases hc : (l.acct a).schedule.currentRate ep with
+  | none => simpa using hs.minRate
+  | some x => simpa using (C05Commission.currentRate_within l.params.rules _ ep x (hs.rates a) hc).2
+
+theorem rewardAccount_frame (l l' : Ledger) (ep a q : Nat) (hok : rewardAccount l ep a q = .ok l') : Frame l l' := by
   unfold rewardAccount at hok; dsimp only at hok; frame_sane hok
 
 theorem slashEscrowL_frame (l l' : Ledger) (a amt : Nat) (hok : slashEscrowL l a amt = .ok l') : Frame l l' := by
@@ -100,18 +109,15 @@ theorem computeCommission_needs_rate : computeCommission 100001 100000 = .error 
 
 /-- Common tail of AddRewards / AddRewardSingleAttenuated for one account: never errors, provided
 no reward is computed for an empty balance (both callers compute it as a multiple of the balance). -/
-theorem rewardAccount_total (l : Ledger) (a q : Nat) (hs : Sane l)
-    (hq : (l.acct a).active.balance = 0 → q = 0) : ∃ l', rewardAccount l a q = .ok l' := by
+theorem rewardAccount_total (l : Ledger) (ep a q : Nat) (hs : Sane l)
+    (hq : (l.acct a).active.balance = 0 → q = 0) : ∃ l', rewardAccount l ep a q = .ok l' := by
   unfold rewardAccount
   by_cases h0 : q = 0
   · exact ⟨l, by simp [h0]⟩
   by_cases hc : q > l.common
   · exact ⟨l, by simp [h0, hc]⟩
   simp only [h0, hc, if_false]
-  have hrate : (l.acct a).commission.getD l.params.minCommissionRate ≤ commissionRateDenominator := by
-    cases hcm : (l.acct a).commission with
-    | none => simpa using hs.minRate
-    | some r => simpa using hs.rates a r hcm
+  have hrate : l.rateOf a ep ≤ commissionRateDenominator := rateOf_le l hs a ep
   obtain ⟨com, rest, hcc, hsum⟩ := computeCommission_total _ q hrate
   simp only [hcc]
   have hmv : ¬ l.common < rest := by omega
@@ -128,12 +134,12 @@ theorem rewardAccount_total (l : Ledger) (a q : Nat) (hs : Sane l)
 /-- Witness: a reward on a pool slashed to zero (shares outstanding) with 100% commission would make
 the commission deposit fail — excluded because rewards are multiples of the balance. -/
 def witnessSlashedFullCommission : Ledger := {
-  n := 1, acct := fun _ => { active := { balance := 0, totalShares := 5 }, commission := some 100000 },
+  n := 1, acct := fun _ => { active := { balance := 0, totalShares := 5 }, schedule := { rates := [⟨0, 100000⟩], bounds := [⟨0, 0, 100000⟩] } },
   del := fun _ _ => 5, deb := [], common := 100, govDeposits := 0, lastBlockFees := 0, feeAcc := 0,
   totalSupply := 100, params := {} }
 
 theorem rewardAccount_needs_balance :
-    (rewardAccount witnessSlashedFullCommission 0 10).toBool = false := by decide
+    (rewardAccount witnessSlashedFullCommission 0 0 10).toBool = false := by decide
 
 theorem addRewardSingleAttenuated_total (l : Ledger) (epoch factor num den a : Nat) (hs : Sane l)
     (hres : l.isReserved a = false)
@@ -145,7 +151,7 @@ theorem addRewardSingleAttenuated_total (l : Ledger) (epoch factor num den a : N
   | some scale =>
     have hd : den ≠ 0 := hden (by rw [hst]; simp)
     simp only [hres, hd, Bool.false_eq_true, if_false]
-    exact rewardAccount_total l a _ hs (fun hb => by rw [hb]; simp)
+    exact rewardAccount_total l _ a _ hs (fun hb => by rw [hb]; simp)
 
 /-- The denominator hypothesis is necessary: with an active reward step and an empty vote list
 (`numEligibleValidators = 0`) the attenuation division fails.  In the real node an empty
@@ -159,20 +165,20 @@ def witnessActiveSchedule : Ledger := {
 theorem addRewardSingleAttenuated_needs_votes :
     (addRewardSingleAttenuated witnessActiveSchedule 0 1 0 0 0).toBool = false := by decide
 
-theorem addRewardsLoop_total (l : Ledger) (factor scale : Nat) (as : List Nat) (hs : Sane l)
-    (hres : ∀ a ∈ as, l.isReserved a = false) : ∃ l', addRewardsLoop l factor scale as = .ok l' := by
+theorem addRewardsLoop_total (l : Ledger) (ep factor scale : Nat) (as : List Nat) (hs : Sane l)
+    (hres : ∀ a ∈ as, l.isReserved a = false) : ∃ l', addRewardsLoop l ep factor scale as = .ok l' := by
   induction as generalizing l with
   | nil => exact ⟨l, rfl⟩
   | cons a as ih =>
     simp only [addRewardsLoop, hres a (List.mem_cons_self ..), Bool.false_eq_true, if_false]
-    obtain ⟨l1, h1⟩ := rewardAccount_total l a
+    obtain ⟨l1, h1⟩ := rewardAccount_total l ep a
       ((l.acct a).active.balance * factor * scale / rewardAmountDenominator) hs (fun hb => by rw [hb]; simp)
     simp only [h1]
-    have f1 := rewardAccount_frame l l1 a _ h1
+    have f1 := rewardAccount_frame l l1 ep a _ h1
     exact ih l1 (f1.sane hs) (fun x hx => by rw [isReserved_params f1.1]; exact hres x (List.mem_cons_of_mem _ hx))
 
-theorem addRewardsLoop_frame (l l' : Ledger) (factor scale : Nat) (as : List Nat)
-    (hok : addRewardsLoop l factor scale as = .ok l') : Frame l l' := by
+theorem addRewardsLoop_frame (l l' : Ledger) (ep factor scale : Nat) (as : List Nat)
+    (hok : addRewardsLoop l ep factor scale as = .ok l') : Frame l l' := by
   induction as generalizing l with
   | nil => simp only [addRewardsLoop] at hok; injection hok with hok; subst hok; exact Frame.refl _
   | cons a as ih =>
@@ -180,21 +186,21 @@ theorem addRewardsLoop_frame (l l' : Ledger) (factor scale : Nat) (as : List Nat
     split at hok; · cases hok
     split at hok; · cases hok
     rename_i l1 h1
-    exact (rewardAccount_frame l l1 a _ h1).trans (ih l1 hok)
+    exact (rewardAccount_frame l l1 ep a _ h1).trans (ih l1 hok)
 
 theorem addRewards_total (l : Ledger) (epoch factor : Nat) (as : List Nat) (hs : Sane l)
     (hres : ∀ a ∈ as, l.isReserved a = false) : ∃ l', addRewards l epoch factor as = .ok l' := by
   unfold addRewards
   split
   · exact ⟨l, rfl⟩
-  · exact addRewardsLoop_total l factor _ as hs hres
+  · exact addRewardsLoop_total l _ factor _ as hs hres
 
 theorem addRewards_frame (l l' : Ledger) (epoch factor : Nat) (as : List Nat)
     (hok : addRewards l epoch factor as = .ok l') : Frame l l' := by
   unfold addRewards at hok
   split at hok
   · injection hok with hok; subst hok; exact Frame.refl _
-  · exact addRewardsLoop_frame l l' _ _ _ hok
+  · exact addRewardsLoop_frame l l' _ _ _ _ hok
 
 theorem rewardEpochSigning_total (l : Ledger) (epoch : Nat) (hs : Sane l) :
     ∃ l', rewardEpochSigning l epoch = .ok l' := by
@@ -346,7 +352,7 @@ shares outstanding while the whole amount is commission (rate exactly 100%). -/
 theorem transferFromCommon_total (l : Ledger) (dst amount : Nat) (escrow : Bool) (hs : Sane l)
     (hres : l.isReserved dst = false)
     (hcorner : (l.acct dst).active.totalShares = 0 ∨ (l.acct dst).active.balance ≠ 0 ∨
-      (l.acct dst).commission.getD l.params.minCommissionRate < commissionRateDenominator) :
+      l.rateOf dst l.epoch < commissionRateDenominator) :
     ∃ l', transferFromCommon l dst amount escrow = .ok l' := by
   unfold transferFromCommon
   simp only [hres, Bool.false_eq_true, if_false]
@@ -361,10 +367,7 @@ theorem transferFromCommon_total (l : Ledger) (dst amount : Nat) (escrow : Bool)
   | false => simp only [Bool.not_false, if_true]; exact ⟨_, rfl⟩
   | true =>
     simp only [Bool.not_true, Bool.false_eq_true, if_false]
-    have hrate : (l.acct dst).commission.getD l.params.minCommissionRate ≤ commissionRateDenominator := by
-      cases hcm : (l.acct dst).commission with
-      | none => simpa using hs.minRate
-      | some r => simpa using hs.rates dst r hcm
+    have hrate : l.rateOf dst l.epoch ≤ commissionRateDenominator := rateOf_le l hs dst l.epoch
     by_cases hts : (l.acct dst).active.totalShares = 0
     · -- everything is commission, deposited 1:1
       simp only [hts, ne_eq, not_true_eq_false, if_false]
@@ -402,7 +405,7 @@ theorem transferFromCommon_total (l : Ledger) (dst amount : Nat) (escrow : Bool)
         simp only [hr]; exact ⟨_, rfl⟩
 
 def witnessTfcCorner : Ledger := {
-  n := 1, acct := fun _ => { active := { balance := 0, totalShares := 5 }, commission := some 100000 },
+  n := 1, acct := fun _ => { active := { balance := 0, totalShares := 5 }, schedule := { rates := [⟨0, 100000⟩], bounds := [⟨0, 0, 100000⟩] } },
   del := fun _ _ => 5, deb := [], common := 100, govDeposits := 0, lastBlockFees := 0, feeAcc := 0,
   totalSupply := 100, params := {} }
 
@@ -542,7 +545,7 @@ theorem addRewardSingleAttenuated_frame (l l' : Ledger) (ep f n d a : Nat)
   · injection hok with hok; subst hok; exact Frame.refl _
   · split at hok; · cases hok
     split at hok; · cases hok
-    exact rewardAccount_frame l l' a _ hok
+    exact rewardAccount_frame l l' _ a _ hok
 
 /-- What BeginBlock needs from the block: proposer and voters are real accounts; a non-zero
 persisted fee comes with a non-empty vote list (and non-zero vote/next-proposer weights — an
@@ -674,11 +677,12 @@ theorem reclaimEscrow_sane (l l' : Ledger) (d e sh : Nat) (hs : Sane l)
     · have h' : ¬ d = e → l.isReserved e = false := by simpa using hre
       exact h' hde
   refine ⟨?_, hs.minRate, hs.entities, ?_⟩
-  · intro i r' hr'
-    have : ((upd l.acct e { l.acct e with active := r.active, debonding := r.debonding }) i).commission
-        = (l.acct i).commission := by
+  · intro i
+    have : ((upd l.acct e { l.acct e with active := r.active, debonding := r.debonding }) i).schedule
+        = (l.acct i).schedule := by
       simp only [upd]; split <;> simp_all
-    exact hs.rates i r' (by rw [← this]; exact hr')
+    show C05Commission.Valid l.params.rules ((upd l.acct e _) i).schedule
+    rw [this]; exact hs.rates i
   · intro x hx
     rcases mem_enqueue _ _ _ hx with ⟨h1, h2⟩ | hx'
     · simp only at h1 h2
@@ -686,8 +690,51 @@ theorem reclaimEscrow_sane (l l' : Ledger) (d e sh : Nat) (hs : Sane l)
       rw [h1, h2]; exact ⟨hd, he⟩
     · exact hs.debRefs x hx'
 
+/-- An accepted `AmendCommissionSchedule` keeps the ledger sane: the new schedule is valid
+(`C05Commission.amend_valid`), nothing else changes. -/
+theorem amendCommissionSchedule_sane (l l' : Ledger) (src : Nat) (am : Schedule) (hs : Sane l)
+    (hok : amendCommissionSchedule l src am = .ok l') : Sane l' := by
+  obtain ⟨hother, _, hvalid, _, _⟩ := amendCommissionSchedule_spec l l' src am hok
+  unfold amendCommissionSchedule at hok
+  split at hok; · cases hok
+  dsimp only at hok
+  split at hok; · cases hok
+  split at hok; · cases hok
+  rename_i s' hs'
+  injection hok with hok
+  have hp : l'.params = l.params := by rw [← hok]; rfl
+  have hn : l'.n = l.n := by rw [← hok]; rfl
+  have hdeb : l'.deb = l.deb := by rw [← hok]; rfl
+  refine ⟨?_, by rw [hp]; exact hs.minRate, ?_, ?_⟩
+  · intro i
+    rw [hp]
+    by_cases hi : i = src
+    · subst hi; exact hvalid (hs.rates i)
+    · rw [hother i hi]; exact hs.rates i
+  · intro a ha; rw [hp] at ha; rw [hn, isReserved_params hp]; exact hs.entities a ha
+  · intro x hx; rw [hdeb] at hx; rw [isReserved_params hp, isReserved_params hp]; exact hs.debRefs x hx
+
+theorem execMsg_sane (l l' : Ledger) (rt : Nat) (m : MsgBody) (hs : Sane l) (hok : execMsg l rt m = .ok l') :
+    Sane l' := by
+  cases m with
+  | transfer d a => exact (transfer_frame l l' rt d a hok).sane hs
+  | withdraw src a => exact (withdraw_frame l l' rt src a hok).sane hs
+  | addEscrow e a =>
+    simp only [execMsg] at hok
+    split at hok; · cases hok
+    exact (addEscrow_frame l l' rt e a hok).sane hs
+  | reclaimEscrow e sh =>
+    simp only [execMsg] at hok
+    split at hok; · cases hok
+    split at hok; · cases hok
+    exact reclaimEscrow_sane l l' rt e sh hs hok
+
 theorem applyOp_sane (l : Ledger) (o : Op) (hs : Sane l) : Sane (applyOp l o) := by
   cases o with
+  | msg rt m =>
+    simp only [applyOp]; cases hr : execMsg l rt m with
+    | error e => exact hs
+    | ok l' => exact execMsg_sane l l' rt m hs hr
   | tx s n f g b =>
     simp only [applyOp]
     rcases applyTx_cases l s n f g b with ⟨e, h1, he⟩ | ⟨l1, e, h1, h2, he⟩ | ⟨l1, l2, h1, h2, he⟩
@@ -702,6 +749,7 @@ theorem applyOp_sane (l : Ledger) (o : Op) (hs : Sane l) : Sane (applyOp l o) :=
       | reclaimEscrow e sh => exact reclaimEscrow_sane l1 l2 s e sh s1 h2
       | allow bb neg ch => exact (allow_frame l1 l2 s bb neg ch h2).sane s1
       | withdraw src a => exact (withdraw_frame l1 l2 s src a h2).sane s1
+      | amend am => exact amendCommissionSchedule_sane l1 l2 s am s1 h2
   | slash a amt =>
     simp only [applyOp]; cases hr : slashEscrowL l a amt with
     | error e => exact hs
@@ -826,6 +874,16 @@ theorem runChain_total (l : Ledger) (bs : List Block) (hr : Ready l) (hc : Chain
     simp only [runChainOpt, h1]
     exact ih l1 r1 (hc.2 l1 h1)
 
+/-- **Commission never exceeds the reward in any reachable ledger**: along every history — whatever
+`AmendCommissionSchedule` transactions (accepted or refused), runtime messages and other operations its
+blocks contain — the rate `computeCommission` is called with, for any account and epoch, is at most
+100 %, so the split succeeds and is exact. -/
+theorem reachable_commission_le_reward (l : Ledger) (bs : List Block) (hr : Ready l) (hc : ChainOk l bs) :
+    ∃ l', runChainOpt l bs = some l' ∧
+      ∀ a ep q, ∃ com rest, computeCommission (l'.rateOf a ep) q = .ok (com, rest) ∧ com + rest = q := by
+  obtain ⟨l', h, r⟩ := runChain_total l bs hr hc
+  exact ⟨l', h, fun a ep q => computeCommission_total _ q (rateOf_le l' r.sane a ep)⟩
+
 theorem ready_of_genesis (l l' : Ledger) (hok : genesis l = .ok l') (hs : Sane l')
     (hw : l'.params.feeWeightVote + l'.params.feeWeightNextPropose + l'.params.feeWeightPropose ≠ 0) : Ready l' := by
   have hb := genesis_boundary l l' hok
@@ -927,12 +985,12 @@ theorem slashEscrowSteps_total (a d : SharePool) (common amount : Nat) :
 
 example : Sane exLedger := by
   refine ⟨?_, by decide, ?_, ?_⟩
-  · intro i r hr
+  · intro i st hst
     by_cases h0 : i = 0
-    · subst h0; simp [exLedger] at hr; subst hr; decide
+    · subst h0; simp [exLedger] at hst; subst hst; decide
     · by_cases h1 : i = 1
-      · subst h1; simp [exLedger] at hr
-      · simp [exLedger, h0, h1] at hr
+      · subst h1; simp [exLedger] at hst
+      · simp [exLedger, h0, h1] at hst
   · intro a ha
     simp [exLedger] at ha
     rcases ha with (rfl | rfl) | rfl <;> decide
@@ -949,7 +1007,8 @@ example : BlockOk exLedger exBlock := by
     · intro v hv; simp [exBlock] at hv; subst hv; decide
     · intro o ho
       simp [exBlock] at ho
-      rcases ho with rfl | rfl | rfl | rfl | rfl | rfl | rfl | rfl <;> simp [opScoped, bodyScoped, exLedger]
+      rcases ho with rfl | rfl | rfl | rfl | rfl | rfl | rfl | rfl | rfl | rfl | rfl | rfl | rfl | rfl | rfl <;>
+        simp [opScoped, bodyScoped, msgScoped, exLedger]
   · intro q hq; simp [exBlock] at hq; subst hq; decide
   · intro v hv; simp [exBlock] at hv; subst hv; decide
 
